@@ -5,6 +5,10 @@
 # Prints one line per harness:  <name> <SUCCESS|FAILURE|TIMEOUT> <seconds>   and exits 0 iff every harness succeeded.
 set -u
 cd "$(dirname "$(readlink -f "$0")")"
+# build output records absolute paths: a target directory that was built at another location (a copied tree, a removed
+# worktree) is discarded
+if [ -d target ] && [ "$(cat target/.verif-path 2>/dev/null)" != "$PWD" ]; then rm -rf target; fi
+mkdir -p target; echo "$PWD" > target/.verif-path
 export VERIF_REPO="${VERIF_REPO:-/repo}"
 export CARGO_NET_OFFLINE=true
 T="${KANI_TIMEOUT:-240}"
